@@ -33,6 +33,13 @@ CASES = {
         {MAIN: "PUSH1 0x04 CALLDATALOAD PUSH @r JUMPI PUSH0 PUSH4 0x00200000 RETURN r: PUSH0 PUSH4 0x00200000 REVERT"}, 1, False, {}, ["C01"]),
     "log-zero-size-huge-offset": (
         {MAIN: f"PUSH0 PUSH4 0x00200000 LOG0 PUSH1 0x07 PUSH0 MSTORE {RET}"}, 1, False, {}, ["C01"]),
+    # a symbolic address is probed while no account lives there (cached as "no such account" on that path), then a CREATE
+    # allocates exactly that address, then the address is called: the call must run the created code
+    "alias-probed-empty-then-created": (
+        {MAIN: "PUSH1 0x04 CALLDATALOAD EXTCODESIZE PUSH2 0x0220 MSTORE "
+               "PUSH16 0x67602a5f5260205ff35f5260086018f3 PUSH2 0x0100 MSTORE PUSH1 0x10 PUSH2 0x0110 PUSH0 CREATE PUSH2 0x0240 MSTORE "
+               "PUSH1 0x20 PUSH2 0x0260 PUSH0 PUSH0 PUSH0 PUSH1 0x04 CALLDATALOAD PUSH2 0xffff CALL PUSH2 0x0280 MSTORE "
+               "PUSH1 0xa0 PUSH2 0x0200 RETURN"}, 1, False, {}, ["C01", "C02", "C09"]),
     # a symbolic address aliasing the Foundry test-contract address: excluded from the alias candidates AND from the
     # emptiness branch of resolve_address_alias, so no path admits it
     "alias-to-foundry-test-address": (
